@@ -68,7 +68,8 @@ func (f *feat) Columns() []interface{}  { return f.cols }
 func (f *feat) Geometry() geom.Geometry { return f.g }
 
 func c12Table(schema, gtype string) tableDef {
-	gt := map[string]ggpkg.GeometryType{"POLYGON": ggpkg.Polygon, "MULTIPOLYGON": ggpkg.MultiPolygon, "POINT": ggpkg.Point}[gtype]
+	gt := map[string]ggpkg.GeometryType{"POLYGON": ggpkg.Polygon, "MULTIPOLYGON": ggpkg.MultiPolygon, "POINT": ggpkg.Point,
+		"GEOMETRY": ggpkg.Geometry, "LINESTRING": ggpkg.Linestring, "MULTIPOINT": ggpkg.MultiPoint, "MULTILINESTRING": ggpkg.MultiLinestring, "GEOMETRYCOLLECTION": ggpkg.GeometryCollection}[gtype]
 	t := tableDef{Name: "parcels", GCol: "geom", GType: gt}
 	if schema == "fid" {
 		t.Cols = []colDef{{Name: "fid", Type: "INTEGER", NotNull: true, PK: true}, {Name: "geom", Type: gtype}}
@@ -82,6 +83,26 @@ func c12Table(schema, gtype string) tableDef {
 func c12Geom(letter byte, i int, gtype string) geom.Geometry {
 	box := func(x, y, s float64) geom.Polygon {
 		return geom.Polygon{{{x, y}, {x + s, y}, {x + s, y + s}, {x, y + s}}}
+	}
+	// the pass-through types: A = small, B = far away (extends the extent)
+	px, py := 10+float64(i%3), 20+float64(i%2)
+	if letter == 'B' {
+		px, py = 1000+10*float64(i), -500-float64(i)
+	}
+	switch gtype {
+	case "LINESTRING":
+		return geom.LineString{{px, py}, {px + 1, py + 2}}
+	case "MULTIPOINT":
+		return geom.MultiPoint{{px, py}, {px + 2, py + 1}}
+	case "MULTILINESTRING":
+		return geom.MultiLineString{{{px, py}, {px + 1, py + 2}}, {{px + 3, py}, {px + 3, py + 1}}}
+	case "GEOMETRYCOLLECTION":
+		return geom.Collection{geom.Point{px, py}, geom.LineString{{px, py}, {px + 1, py + 2}}}
+	case "GEOMETRY": // any type may sit in such a table
+		if i%2 == 0 {
+			return geom.Point{px, py}
+		}
+		return box(px, py, 1)
 	}
 	switch gtype {
 	case "POINT":
@@ -185,6 +206,14 @@ func c12Cases(thorough bool) []c12Case {
 						cs = append(cs, c12Case{Page: p, N: n, Pattern: pat, Schema: schema, GType: gt})
 					}
 				}
+			}
+		}
+	}
+	// every other geometry type name a table may carry (all passed through untouched): counts around the page size
+	for _, gt := range []string{"GEOMETRY", "LINESTRING", "MULTIPOINT", "MULTILINESTRING", "GEOMETRYCOLLECTION"} {
+		for p := 1; p <= 2; p++ {
+			for _, pat := range []string{"", "A", "B", "AB", "ABA", "BAA"} {
+				cs = append(cs, c12Case{Page: p, N: len(pat), Pattern: pat, Schema: "mixed", GType: gt})
 			}
 		}
 	}
